@@ -20,16 +20,17 @@ Frames(f) == IF f \in {"EKF", "ROLEQ", "OLEQ", "TRIAD"} THEN {"NED", "ENU"} ELSE
 Reps(f)   == CASE f = "Tilt" -> {"quaternion", "rotmat", "angles"}
                [] f \in {"SAAM", "TRIAD"} -> {"quaternion", "rotmat"}
                [] f = "Complementary" -> {"quaternion", "angles"}
+               [] f = "AngularRate" -> {"quaternion", "rotmat", "angles"}
                [] OTHER -> {"quaternion"}
 Modes(f)  == CASE f = "FLAE" -> {"symbolic", "eig", "newton"}
-               [] f = "AngularRate" -> {"closed", "series"}
+               [] f = "AngularRate" -> {"closed", "series", "integration"}      \* "integration": cumulative sum of the rates read as roll-pitch-yaw (batch only)
                [] f = "AQUA" -> {"fixed", "adaptive"}
                [] OTHER -> {"-"}
 Gains == {"default", "low", "high"}
 Rates == {"100Hz", "3Hz", "1000Hz"}
 
 Cfgs == { c \in [f : Filters, arch : {"IMU", "MARG", "ACC", "ACCMAG", "GYR"}, frame : {"NED", "ENU", "-"},
-                 rep : {"quaternion", "rotmat", "angles"}, mode : {"symbolic", "eig", "newton", "closed", "series", "fixed", "adaptive", "-"},
+                 rep : {"quaternion", "rotmat", "angles"}, mode : {"symbolic", "eig", "newton", "closed", "series", "integration", "fixed", "adaptive", "-"},
                  gain : Gains, rate : Rates] :
             /\ c.arch \in Archs(c.f) /\ c.frame \in Frames(c.f) /\ c.rep \in Reps(c.f) /\ c.mode \in Modes(c.f)
             /\ (c.f \notin Recursive \/ (c.f = "AQUA" /\ c.arch \in {"ACC", "ACCMAG"})) => (c.gain = "default" /\ c.rate = "100Hz")
@@ -39,7 +40,7 @@ Cfgs == { c \in [f : Filters, arch : {"IMU", "MARG", "ACC", "ACCMAG", "GYR"}, fr
 UsesMag(c) == c.arch \in {"MARG", "ACCMAG"}
 UsesAcc(c) == c.arch # "GYR"
 UsesGyr(c) == c.arch \in {"IMU", "MARG", "GYR"}
-Streams(c) == c.f \in {"Madgwick", "Mahony", "EKF", "UKF", "AQUA", "ROLEQ", "Fourati", "AngularRate"} /\ UsesGyr(c)
+Streams(c) == c.f \in {"Madgwick", "Mahony", "EKF", "UKF", "AQUA", "ROLEQ", "Fourati", "AngularRate"} /\ UsesGyr(c) /\ c.mode # "integration"
 
 (* ------------------------------- faults (C13) ------------------------------- *)
 FaultKinds == {"ok", "acc0", "mag0", "gyr0", "accmag0", "all0"}
